@@ -70,18 +70,21 @@ def plan(tier, seed):
         for v in fast:
             shards.append(dict(bin=(v, "c07"), shard=1000 + i, args=big_args + ["--stream", stream_file("big", v, n)],
                                env={"TEXEL_VERIF_NET": runner.net_path(*n)}))
+    # measured minima over five seeds (quick, asan + 4 fast variants) are 1.7-2x these numbers; the fast variants
+    # contribute most of the cases, so the floors scale with how many of them this CPU can run
     floors = {
-        "king move before an evaluation": 2000, ">4 pending feature changes (overflow to full refresh)": 1000,
-        "evaluation at network stack depth >= 8": 1500, "take-back with empty network stack (after assignment/reconnect)": 1500,
-        "king crossed the d/e-file boundary before an evaluation": 800, "castling made": 300, "capture-promotion made": 300,
-        "e.p. capture made": 100, "evaluation after a null-move edit": 1500, "evaluation answered from the evaluation hash": 2000,
-        "pollution with >= 1000 other positions": 200, "contempt changed with shared caches": 1500, ">=6 queens of one colour": 500,
-        "symmetry on end-game-rule material": 40000, "search evaluating at network stack depth >= 8": 300,
-        "consecutive searches with different contempt on shared tables": 100,
-        "in-search evaluations compared": 1000000, "evaluations compared": 300000,
+        "king move before an evaluation": 20000, ">4 pending feature changes (overflow to full refresh)": 9000,
+        "evaluation at network stack depth >= 8": 7000, "take-back with empty network stack (after assignment/reconnect)": 20000,
+        "king crossed the d/e-file boundary before an evaluation": 10000, "castling made": 1400, "capture-promotion made": 1800,
+        "e.p. capture made": 150, "evaluation after a null-move edit": 16000, "evaluation answered from the evaluation hash": 26000,
+        "pollution with >= 1000 other positions": 1100, "contempt changed with shared caches": 10000, ">=6 queens of one colour": 1800,
+        "another position assigned into the connected one": 5000, "direct setPiece edit of the connected position": 18000,
+        "symmetry on end-game-rule material": 60000, "search evaluating at network stack depth >= 8": 350,
+        "consecutive searches with different contempt on shared tables": 110,
+        "in-search evaluations compared": 900000, "evaluations compared": 550000,
     }
-    if not quick:
-        floors = {k2: v * 20 for k2, v in floors.items()}
+    scale = (20 if not quick else 1) * max(len(fast), 1) / 4.0
+    floors = {k2: int(v * scale) for k2, v in floors.items()}
     return dict(
         builds=[("asan", "c07")] + [(v, "c07") for v in fast],
         replay_bin=("asan", "c07"),
